@@ -1,6 +1,6 @@
 (* C08: the statements of Properties.v (kept readable here) and an instance showing that the hypotheses are satisfiable. *)
 From Coq Require Import List Arith Lia Setoid Morphisms Ring Bool ZArith.
-From C08 Require Import Model Spec ProofsBasic ProofsKara ProofsDiv.
+From C08 Require Import Model Spec ProofsBasic ProofsKara ProofsDiv ProofsPow.
 Import ListNotations.
 
 Section Stmts.
@@ -39,6 +39,14 @@ Definition AddSub_stmt := forall P Q,
   (normal D P -> normal D Q -> normal D (add_pub D P Q) /\ normal D (sub_pub D P Q)).
 (* the entrywise add without the final setdegree (the code before the repair) does NOT keep normal forms *)
 Definition RawAddNormal_stmt := forall P Q, normal D P -> normal D Q -> normal D (add D P Q).
+(* S9: modular powering, exponent universally quantified.  Full statement: powmod P e U = P^e mod U.  Proved (partial): for EVERY
+   e >= 1 the result is congruent to the e-fold product P*...*P modulo U (U = the stripped modulus), GIVEN the two step facts
+   that are only correspondence-tested: sqr A = A*A and modin(A,U) = A up to a multiple of U.  Products and the reduction
+   `mod` inside the loop are covered by the proved Karatsuba and division-identity theorems. *)
+Definition PowmodCong_stmt := forall kthr sthr P U0 (e : positive), 1 <= kthr ->
+  (forall A, eqv D (sqr D kthr sthr A) (pmul A A)) ->
+  (forall A, cong D (setdegree D U0) (modin D A (setdegree D U0)) A) ->
+  cong D (setdegree D U0) (powmod D kthr sthr P (Npos e) U0) (pun D P (Pos.to_nat e)).
 (* S7: setdegree keeps the polynomial, returns a normal form, and the zero polynomial is recognised *)
 Definition Normal_stmt := forall P,
   peq (setdegree D P) P /\ normal D (setdegree D P) /\ (isZero D P = true <-> peq P []).
@@ -67,6 +75,7 @@ Proof.
   intros P Q. split. apply (add_pub_peq D OK). split. apply eqv_peq. apply (sub_pub_eqv D OK).
   intros HP HQ. split. apply (add_pub_normal D OK); assumption. apply (sub_pub_normal D OK); assumption.
 Qed.
+Lemma PowmodCong_ok : PowmodCong_stmt D. Proof. exact (powmod_cong D OK). Qed.
 Lemma Normal_ok : Normal_stmt D.
 Proof.
   intros P. split. apply (setdegree_peq D OK). split. apply (setdegree_normal D OK). apply (isZero_spec D OK).
